@@ -1,4 +1,5 @@
 import SdcModel.Http
+import SdcModel.RequestFlow
 import SdcModel.Proofs.Http
 import SdcModel.Generated.Codings
 /-!
@@ -184,6 +185,58 @@ theorem framing_exclusive (r : Registry) (cands sup : List Str) (chunk : Nat) (b
   · simp only [hc, if_false] at hfr
     obtain ⟨h1, h2, h3⟩ := hfr
     subst h3; exact Or.inr ⟨h1, h2⟩
+
+/-! ### framing on a persistent connection: the peer reads exactly the message -/
+
+/-- how the reader's exception classes look to the request handler (none of them is a HTTPRequestHandlingError) -/
+def readerExc : Err → RequestFlow.Exc
+  | .dechunk => .other 1 | .decompress => .other 2 | .compression => .other 3 | .codec => .other 4
+  | .value => .other 5 | .type => .other 6 | .fuel => .other 7
+
+/-- outcome of `self._read_request()` for the bytes at the head of the connection -/
+def readStage (w : Nat) (r : Registry) (sup : List Str) (h : Hdrs) (wire : Bytes) : RequestFlow.Stage Unit :=
+  match readRequestBody w r sup h wire with
+  | .ok _ => .ok ()
+  | .error e => .error (readerExc e)
+
+/-- whatever makes `read_request_body` raise — broken chunk framing, an invalid / negative / empty Content-Length (raised before a
+    single body byte is consumed), a coding that is not enabled or corrupt, a coded body without length — the request is answered
+    400 and the connection ends: no byte behind the unreadable message is interpreted as a further request, nothing is executed -/
+theorem unreadable_message_ends_connection {σ : Type} (w : Nat) (r : Registry) (sup : List Str) (h : Hdrs) (wire : Bytes) (e : Err)
+    (hr : readRequestBody w r sup h wire = .error e) (hasDisp : Bool) (lookup : RequestFlow.Stage Unit)
+    (post : σ → RequestFlow.Stage RequestFlow.Response × σ) (rest : List (RequestFlow.HandlerEnv σ)) (s : σ) :
+    RequestFlow.serveConn (⟨readStage w r sup h wire, hasDisp, lookup, post, .ok .error⟩ :: rest) s
+      = ([.plain 400 .exception], s) := by
+  simp [RequestFlow.serveConn, RequestFlow.doPOST, readStage, hr]
+
+/-- the framing errors that are raised before the body is touched (the body bytes are still in the stream) -/
+theorem bad_length_is_unreadable (w : Nat) (r : Registry) (sup : List Str) (h : Hdrs) (wire : Bytes) (hc : h.isChunked = false)
+    (hl : h.contentLength = some .empty ∨ h.contentLength = some .bad ∨ ∃ n, h.contentLength = some (.val n) ∧ n < 0) :
+    readRequestBody w r sup h wire = .error .value := by
+  rcases hl with hl | hl | ⟨n, hl, hn⟩
+  · simp [readRequestBody, hc, hl]
+  · simp [readRequestBody, hc, hl]
+  · simp [readRequestBody, hc, hl, hn]
+
+/-- a readable message followed by further requests: the connection goes on (keep-alive is not lost by the repair) -/
+theorem readable_message_keeps_connection {σ : Type} (lookup : RequestFlow.Stage Unit) (post : σ → RequestFlow.Stage RequestFlow.Response × σ)
+    (rest : List (RequestFlow.HandlerEnv σ)) (s : σ) :
+    ∃ o, (RequestFlow.serveConn (⟨.ok (), true, lookup, post, .ok .error⟩ :: rest) s).1
+      = o :: (RequestFlow.serveConn rest (RequestFlow.doPOST ⟨.ok (), true, lookup, post, .ok .error⟩ s).2).1 := by
+  simp only [RequestFlow.serveConn]
+  cases hd : RequestFlow.doPOST (σ := σ) ⟨.ok (), true, lookup, post, .ok .error⟩ s with
+  | mk res s' =>
+    cases res with
+    | error x =>
+      have := RequestFlow.doPOST (σ := σ) ⟨.ok (), true, lookup, post, .ok .error⟩ s
+      simp [RequestFlow.doPOST] at hd
+      cases lookup with
+      | error y => cases y <;> simp at hd
+      | ok u =>
+        simp at hd
+        cases hp : post s with
+        | mk pr ps => rw [hp] at hd; cases pr <;> simp at hd
+    | ok o => exact ⟨o, by simp⟩
 
 /-! ### content coding -/
 
